@@ -47,6 +47,12 @@ def run(tier):
         plans.append(dict(what='bodies of 0..18 packets, every payload kind', impl=impl,
                           cfg={'ping_interval': 8, 'ping_timeout': 4}, nslots=1,
                           scripts=body_scripts(seed + 3, 60 if th else 30)))
+    plans.append(core.preempt_plan(seed, 300 if th else 40, 24, 2, w_post,
+                                   {'ping_interval': 8, 'ping_timeout': 4},
+                                   'POST bodies of all packet types'))
+    plans.append(core.preempt_plan(seed + 1, 300 if th else 40, 28, 2, w_ws,
+                                   {'ping_interval': 8, 'ping_timeout': 4},
+                                   'frames on websocket and mid-upgrade sessions'))
     core.conform(ck, plans)
     ck.cov['rule'] = ('case = one environment script executed on one server implementation and '
                       'handler dispatch mode; distinct by recorded action sequence')
